@@ -227,3 +227,19 @@ Lemma csum_nonneg : forall f code, (forall i, 0 <= f i) -> 0 <= csum f code.
 Proof. intros f code Hf. induction code as [|i r IH]; cbn; [lia|]. specialize (Hf i). lia. Qed.
 
 Definition tsum (f : instr -> Z) (ths : list (tid * list instr)) : Z := asum (fun _ code => csum f code) ths.
+
+(* relayItems.deleteTomb (the scheduled collection, model step LGc) and relayItems.Delete do the
+   same whenever the collection meets a tombstone or nothing *)
+Lemma items_delete_tomb_eq : forall st t,
+  (forall it, lookup key_eqb t (items st) = Some it -> it_tomb it = true) ->
+  items_delete_tomb st t = fst (items_delete st t).
+Proof.
+  intros st t H. unfold items_delete_tomb, items_delete.
+  destruct (lookup key_eqb t (items st)) as [it|]; [|reflexivity].
+  rewrite (H it eq_refl). reflexivity.
+Qed.
+
+(* ... and it leaves a live item (and everything else) alone *)
+Lemma items_delete_tomb_live : forall st t it,
+  lookup key_eqb t (items st) = Some it -> it_tomb it = false -> items_delete_tomb st t = st.
+Proof. intros st t it H Ht. unfold items_delete_tomb. rewrite H, Ht. reflexivity. Qed.
